@@ -472,13 +472,30 @@ def check_wide(u, res):
                 continue
             idx += 1
             expr = " ".join(combo)
-            spec = {"nodes": {"doc": {"content": expr}, "a": {}, "b": {}, "c": {}, "text": {}}, "marks": {}}
+            variants = [{"a": {}, "b": {}, "c": {}}]
+            if ln <= 2:
+                # the node name `a` is also a GROUP name of b and c: the exactly-named type wins
+                variants.append({"a": {}, "b": {"group": "a"}, "c": {"group": "a x"}})
+            for others in variants:
+                _wide_one(expr, others, u, res)
+            n += 1
+    res.sample({"kind": "wide", "expr": " ".join(WIDE_ITEMS[:3])})
+    res.scopes.append({"unit": u["name"], "expressions": n, "completed": True})
+
+
+def _wide_one(expr, others, u, res):
+    from ..ref.schema_model import SchemaModel
+
+    if True:
+        if True:
+            spec = {"nodes": {"doc": {"content": expr}, **{k: dict(v) for k, v in others.items()}, "text": {}}, "marks": {}}
+            case0 = {"expr": expr} if not others["b"] else {"expr": expr, "nodes": others}
             engine.kick(20)
             try:
                 schema = adapters.Schema(spec)
             except Exception as e:  # noqa: BLE001
-                res.violate("c07.wide.schema-rejected", {"expr": expr}, common.exc_str(e), size=len(expr))
-                continue
+                res.violate("c07.wide.schema-rejected", case0, common.exc_str(e), size=len(expr))
+                return
             model = SchemaModel(spec)
             doc_t = schema.nodes["doc"]
             regex = model.types["doc"].regex
@@ -491,7 +508,7 @@ def check_wide(u, res):
                     frag = adapters.Fragment([kids[t] for t in seq])
                     got = doc_t.valid_content(frag)
                     if bool(got) != want:
-                        res.violate("c07.wide.valid_content", {"expr": expr, "children": list(seq)}, got, want, size=len(expr) + L)
+                        res.violate("c07.wide.valid_content", {**case0, "children": list(seq)}, got, want, size=len(expr) + L)
                         break
                     try:
                         doc_t.create_checked(None, [kids[t] for t in seq])
@@ -499,11 +516,8 @@ def check_wide(u, res):
                     except ValueError:
                         made = False
                     if made != want:
-                        res.violate("c07.wide.create_checked", {"expr": expr, "children": list(seq)}, made, want, size=len(expr) + L)
+                        res.violate("c07.wide.create_checked", {**case0, "children": list(seq)}, made, want, size=len(expr) + L)
                         break
-            n += 1
-    res.sample({"kind": "wide", "expr": " ".join(WIDE_ITEMS[:3])})
-    res.scopes.append({"unit": u["name"], "expressions": n, "completed": True})
 
 
 def run_unit(u):
@@ -599,9 +613,9 @@ def replay(case):
     res = engine.UnitResult(PROPERTY_ID)
     if "expr" in case:
         engine.arm()
-        check_wide({"block": 0, "nblocks": 1, "name": "replay", "quick": True}, res)
+        _wide_one(case["expr"], case.get("nodes") or {"a": {}, "b": {}, "c": {}}, {"quick": True}, res)
         engine.disarm()
-        return [v for v in res.violations if v.case.get("expr") == case["expr"]]
+        return res.violations
     c = adapters.Ctx(case["schema"], case["spec"]) if case.get("spec") else adapters.ctx(case["schema"])
     if "tree" in case:
         check_validity(c, case["tree"], res, 0, case.get("how", "replay"))
